@@ -816,3 +816,37 @@ func incompleteLiterals(p *Prog, named *types.Named) map[ssa.Instruction][]strin
 	}
 	return out
 }
+
+// funcCalling: entry itself when it calls the named function, otherwise the one function among
+// entry's closures and the same-package functions they call (statically) that does — the body of an
+// entry point may have been moved into a helper or a closure handed to a publishing helper.
+func funcCalling(p *Prog, entry *ssa.Function, callee string) *ssa.Function {
+	has := func(f *ssa.Function) bool {
+		found := false
+		allInstrs(f, func(in ssa.Instruction) {
+			if cc := callCommon(in); cc != nil && calleeName(cc) == callee {
+				found = true
+			}
+		})
+		return found
+	}
+	if has(entry) {
+		return entry
+	}
+	var hits []*ssa.Function
+	seen := map[*ssa.Function]bool{}
+	for _, a := range withAnons(entry) {
+		for _, f := range samePkgCallees(p, a) {
+			for _, g := range withAnons(f) {
+				if !seen[g] && has(g) {
+					seen[g] = true
+					hits = append(hits, g)
+				}
+			}
+		}
+	}
+	if len(hits) == 1 {
+		return hits[0]
+	}
+	return entry
+}
